@@ -922,7 +922,33 @@ def run_scripts(pid, P, scripts, tier, seed, search=True, stats=None):
     nontriv = P.get("nontrivial") or (lambda s: sum(1 for l in s if l.split()[0] in
                                                    ("vote", "app", "trunc", "purge", "commit", "ud")) >= 2)
     dn = len({hashlib.sha1("\n".join(l).encode()).hexdigest() for _, l in scripts if nontriv(l)})
+    # what the implementation actually did in this run (branches, error kinds, worker states, events)
+    observed = {}
+    ops_hist = {}
+    for name, lines in scripts:
+        for l in lines:
+            w = l.split()[0]
+            ops_hist[w] = ops_hist.get(w, 0) + 1
+        for l in impl.get(name, []):
+            t = l.split()
+            if not t:
+                continue
+            if t[0] in ("ret", "open", "dumpopen") and len(t) >= 2:
+                key = " ".join(t[:3]) if t[1] == "err" and len(t) >= 3 else " ".join(t[:2])
+            elif t[0] == "wst":
+                key = "wst " + t[1].split(":")[0]
+            elif t[0] == "ev" and len(t) >= 3:
+                key = f"ev {t[1]} {t[2] if t[1] in ('create', 'write', 'sync', 'trunc', 'unlink') else ''} {t[-1] if t[-1] in ('ok', 'fail', 'err') else ''}".strip()
+            elif t[0] in ("dec", "rt", "dropped", "snap", "burst", "lockrace") and len(t) >= 2:
+                key = " ".join(t[:2])
+            elif t[0] in ("read", "iter", "iter2"):
+                key = t[0] + (" with-error" if "err:" in l else (" empty" if len(t) == 1 else " ok"))
+            else:
+                continue
+            observed[key] = observed.get(key, 0) + 1
     cov = {
+        "observed_behaviour": dict(sorted(observed.items())),
+        "script_commands": dict(sorted(ops_hist.items())),
         "evaluations": len(scripts),
         "distinct_nontrivial": dn,
         "distinct": distinct,
